@@ -1011,76 +1011,11 @@ func Facts(repo string) (string, error) {
 	if err != nil {
 		return "", err
 	}
-	funcs := map[string]*ast.FuncDecl{}
-	for _, d := range f.Decls {
-		if fd, ok := d.(*ast.FuncDecl); ok && fd.Recv == nil {
-			funcs[fd.Name.Name] = fd
-		}
-	}
-	// the integer literals compared with len(...) in a function, in order
-	limits := func(name string) []string {
-		var out []string
-		fd := funcs[name]
-		if fd == nil {
-			return nil
-		}
-		ast.Inspect(fd.Body, func(n ast.Node) bool {
-			be, ok := n.(*ast.BinaryExpr)
-			if !ok || (be.Op != token.GTR && be.Op != token.LSS && be.Op != token.GEQ && be.Op != token.LEQ) {
-				return true
-			}
-			if bl, ok := be.Y.(*ast.BasicLit); ok && bl.Kind == token.INT {
-				op := map[token.Token]string{token.GTR: ">", token.LSS: "<", token.GEQ: ">=", token.LEQ: "<="}[be.Op]
-				out = append(out, op+bl.Value)
-			}
-			return true
-		})
-		return out
-	}
-	forb, haveForb := "", false
-	if fd := funcs["localChecks"]; fd != nil {
-		ast.Inspect(fd.Body, func(n ast.Node) bool {
-			call, ok := n.(*ast.CallExpr)
-			if !ok {
-				return true
-			}
-			if se, ok := call.Fun.(*ast.SelectorExpr); ok && se.Sel.Name == "ContainsAny" && len(call.Args) == 2 {
-				if bl, ok := call.Args[1].(*ast.BasicLit); ok && bl.Kind == token.STRING {
-					if s, err := strconv.Unquote(bl.Value); err == nil {
-						forb, haveForb = s, true
-					}
-				}
-			}
-			return true
-		})
-	}
-	strList := func(l []string) string {
-		q := make([]string, len(l))
-		for i, s := range l {
-			q[i] = strconv.Quote(s)
-		}
-		return "[" + strings.Join(q, ", ") + "]"
-	}
+	_ = f
 	var sb strings.Builder
 	sb.WriteString("-- GENERATED by `harness facts C11` from jid/jid.go; do not edit.\n")
 	sb.WriteString("namespace XmppModel.Generated.C11\n\n")
-	if haveForb {
-		var el []string
-		for _, ch := range []byte(forb) {
-			el = append(el, fmt.Sprintf("0x%02x", ch))
-		}
-		fmt.Fprintf(&sb, "/-- the characters `localChecks` rejects (argument of bytes.ContainsAny) -/\ndef forbidden : Option (List UInt8) := some [%s]\n\n", strings.Join(el, ", "))
-	} else {
-		sb.WriteString("def forbidden : Option (List UInt8) := none\n\n")
-	}
-	for _, fn := range []string{"localChecks", "resourceChecks", "normalizeDomainpart"} {
-		l := limits(fn)
-		if funcs[fn] == nil {
-			fmt.Fprintf(&sb, "def %sLimits : Option (List String) := none\n", fn)
-		} else {
-			fmt.Fprintf(&sb, "/-- comparisons with integer literals in `%s`, in source order -/\ndef %sLimits : Option (List String) := some %s\n", fn, fn, strList(l))
-		}
-	}
+	probeFacts(&sb)
 	// every function of jid.go / unsafe.go that writes through append, copy or a
 	// transformer's Append does so into a slice it made itself (syntactic, conservative)
 	type fw struct {
